@@ -12,7 +12,8 @@ Inductive oev :=
 | OComplete (t : nat) (g : list msg)
 | OLost (t : nat) (n : Z)
 | ORet (t : nat) (c : call) (ok : bool)
-| ODeadlock (t : nat).                  (* the thread did not reach its next yield point in time *)
+| ODeadlock (t : nat)                   (* the thread did not reach its next yield point in time *)
+| OPanic (t : nat).                     (* a call of the thread panicked (recovered by the harness) *)
 
 (* callback behaviour shared by harness and model: re-entrant calls made from
    ReassemblyComplete when the group's first message has a listed identity *)
@@ -44,7 +45,7 @@ Fixpoint nodupZ (l : list Z) : bool := match l with [] => true | x :: r => negb 
 Definition single_seq (g : list msg) : bool := match g with [] => false | m0 :: r => forallb (fun m => mseq m =? mseq m0) r end.
 Definition closes_ok (obs : list oev) : nat := length (filter (fun e => match e with ORet _ CClose true => true | _ => false end) obs).
 Definition closes_started (obs : list oev) : nat := length (filter (fun e => match e with OStart _ CClose => true | _ => false end) obs).
-Definition no_deadlock (obs : list oev) : bool := forallb (fun e => match e with ODeadlock _ => false | _ => true end) obs.
+Definition no_deadlock (obs : list oev) : bool := forallb (fun e => match e with ODeadlock _ | OPanic _ => false | _ => true end) obs.
 (* pushes (non-EOE) that returned before the first Close was invoked *)
 Fixpoint pushed_before_close (obs : list oev) : list Z :=
   match obs with
@@ -87,4 +88,5 @@ Definition oComplete (t : Z) g := OComplete (Z.to_nat t) g.
 Definition oLost (t : Z) n := OLost (Z.to_nat t) n.
 Definition oRet (t : Z) c ok := ORet (Z.to_nat t) c ok.
 Definition oDeadlock (t : Z) := ODeadlock (Z.to_nat t).
+Definition oPanic (t : Z) := OPanic (Z.to_nat t).
 Definition cCase maxsz tmo spec progs (sched : list Z) finished obs := CCase maxsz tmo spec progs (map Z.to_nat sched) finished obs.
